@@ -1498,7 +1498,7 @@ namespace awkward {
       return nextcontent.get()->getitem_next(nexthead, nexttail, nextadvanced);
     }
     else {
-      if (advanced.length() != len) {
+      if (advanced.length() < len) {
         throw std::invalid_argument(
           std::string("cannot fit the pairing of an earlier array index (length ")
           + std::to_string(advanced.length()) + std::string(") to this dimension (length ")
